@@ -66,6 +66,9 @@ FIXED_PROGRAMS = [
     [{"t": "mask", "pat": "a+"}],
     [{"t": "mask", "pat": "b"}, {"t": "mask", "pat": " "}],
     [],
+    # matches whose length changes cancel within one step (a run grows, another shrinks)
+    [{"t": "rule", "pat": "a+", "ng": 0, "tmpl": "ab"}],
+    [{"t": "rule", "pat": " +", "ng": 0, "tmpl": "  "}, {"t": "rule", "pat": "b*", "ng": 0, "tmpl": "x"}],
 ]
 
 
@@ -110,7 +113,8 @@ def gen_cases(rng, tier):
         progs.append(_rand_items(rng, 0, []))
     maxlen = 3 if tier == "quick" else 4
     strings = ["".join(t) for n in range(0, maxlen + 1) for t in itertools.product(ALPHA, repeat=n)]
-    extra = ["I won't go", "x ac y z", "xb ab", "aaaa", "a b  c", "abcabc ab", "  a  ", "won't won't"]
+    extra = ["I won't go", "x ac y z", "xb ab", "aaaa", "a b  c", "abcabc ab", "  a  ", "won't won't",
+             "a c aaa", "aaa c a c", "c a   b", "a   b c"]
     for p in progs:
         p = normalise(p)
         active = rng.choice([[], ["m1"], ["m1", "m2"]])
